@@ -47,34 +47,23 @@ Lemma gq_locus_sense A B C D E F G H J K :
   locus_sense (convert_card RS M_GQ [A; B; C; D; E; F; G; H; J; K]) (fM_gq RS A B C D E F G H J K).
 Proof. finish_locus 1. ring. Qed.
 
-(* the value tested by convert_special_quadric is G itself *)
-Lemma sq_test_value a b c d e f g x y z :
-  eval_quadric RS (sq_expand RS a b c d e f g x y z) (x, y, z) = Ok g.
-Proof. cbn. unfold ssq. cbn. f_equal. ring. Qed.
-
+(* SQ: the expansion is the same polynomial, whatever the sign of G *)
 Lemma sq_locus_sense A B C D E F G x0 y0 z0 :
-  G <= 0 ->
   locus_sense (convert_card RS M_SQ [A; B; C; D; E; F; G; x0; y0; z0])
               (fM_sq RS A B C D E F G x0 y0 z0).
-Proof.
-  intros HG. unfold convert_card, to_surface_mcnp. cbn.
-  match goal with |- context [Rltb 0 ?v] => replace v with G by (unfold ssq; cbn; ring) end.
-  replace (Rltb 0 G) with false by (symmetry; apply Rltb_false; exact HG).
-  finish_locus 1. ring.
-Qed.
+Proof. finish_locus 1. ring. Qed.
 
-(* ... and with G > 0 all ten coefficients are negated: same zero set, the two
-   senses exchanged *)
-Lemma sq_positive_g_flipped A B C D E F G x0 y0 z0 :
-  0 < G ->
-  locus_flipped (convert_card RS M_SQ [A; B; C; D; E; F; G; x0; y0; z0])
-                (fM_sq RS A B C D E F G x0 y0 z0).
+(* an SQ card and the GQ card with the expanded coefficients give the same QUAD *)
+Lemma sq_gq_consistent A B C D E F G x0 y0 z0 :
+  convert_card RS M_SQ [A; B; C; D; E; F; G; x0; y0; z0] =
+  convert_card RS M_GQ [A; B; C; 0; 0; 0; 2 * D - 2 * A * x0; 2 * E - 2 * B * y0; 2 * F - 2 * C * z0;
+                        A * (x0 * x0) + B * (y0 * y0) + C * (z0 * z0)
+                        - 2 * (D * x0 + E * y0 + F * z0) + G] /\
+  forall p, fM_gq RS A B C 0 0 0 (2 * D - 2 * A * x0) (2 * E - 2 * B * y0) (2 * F - 2 * C * z0)
+                  (A * (x0 * x0) + B * (y0 * y0) + C * (z0 * z0) - 2 * (D * x0 + E * y0 + F * z0) + G) p
+            = fM_sq RS A B C D E F G x0 y0 z0 p.
 Proof.
-  intros HG. unfold convert_card, to_surface_mcnp. cbn.
-  match goal with |- context [Rltb 0 ?v] => replace v with G by (unfold ssq; cbn; ring) end.
-  replace (Rltb 0 G) with true by (symmetry; apply Rltb_true; exact HG).
-  eexists _, _, _, (-1). split; [reflexivity|]. split; [reflexivity|]. split; [lra|].
-  intros [[x y] z]; cbn; unfold ssq; cbn. ring.
+  split; [reflexivity|]. intros [[x y] z]. cbn. unfold ssq. cbn. ring.
 Qed.
 
 (* ---------- tori ---------- *)
